@@ -49,8 +49,11 @@ TRANSLATION TABLE (Python → Lean)
   raise X(...)                          .error Py.Err.<X>   result type `Except Py.Err τ`; with effects / state the result
                                         is (value-or-error, effects, state…): what was done before a raise stays done
   registry effect `obj.meth(a, b)`      let effects_ := effects_ ++ [(a, b)]; `effects_` starts as [] and is returned (after the value)
-  registry snapshot `self.f(*args, **kwargs)` with the function's own varargs: let effects_ := effects_ ++ [current value of the
-                                        named state attrs] (what the callee sees); registry ignore_calls (logging): dropped
+  registry effect tag `self.m()` ↦ n    let effects_ := effects_ ++ [n]   (which argument-less method a dispatch function calls)
+  registry snapshot `self.f(*args, **kwargs)` with the function's own varargs: let effects_ := effects_ ++ [(current value of the
+                                        named state attrs (what the callee sees), args, kwargs)] — `args : List τ` / `kwargs`
+                                        (association list) are parameters of the definition when the registry types them
+                                        (`varargs`); the call must forward exactly them; registry ignore_calls (logging): dropped
   registry state attr `self._x`         a local initialised from `self._x`, returned after the value / effects;
                                         a dict-typed one is an association list, newest binding first:
   self._x.get(k, None) / self._x[k] = v (List.lookup k x) : Option / let x := (k, v) :: x
@@ -114,8 +117,14 @@ class Fn:
     keyed: tuple = ()              # dotted names of dicts whose values are named by their key: `self._cells[k]` → k
     state: dict = field(default_factory=dict)     # "self._cache" -> type: attributes the function mutates
     effect_params: dict = field(default_factory=dict)   # "self.m" -> parameter names, so that an effect call may use keywords
+    effect_tags: dict = field(default_factory=dict)     # "self.m" -> Int: a call `self.m()` without arguments is the effect <tag>
+    #                                               (dispatch functions: which of several argument-less methods is called)
     snapshot: dict = field(default_factory=dict)  # "self._user_step" -> state attrs: the call `f(*args, **kwargs)` with the function's
     #                                               own varargs passed through is the effect (current values of those attrs)
+    #                                               own varargs passed through is the effect (current values of those attrs,
+    #                                               then the forwarded `*args` / `**kwargs` themselves if typed in `varargs`)
+    varargs: dict = field(default_factory=dict)   # snapshot only: "args" -> type of the *args tuple as a list, "kwargs" -> type of the
+    #                                               **kwargs dict as an association list; they become parameters and are recorded
     ignore_calls: tuple = ()       # call statements that are dropped (logging); their arguments must not contain calls
     fuel: bool = False             # `while` loops allowed: the definition gets a `fuel : Nat` parameter
     order: str | None = None       # Lean name of the translated `__lt__` that heappush / heappop compare with
@@ -692,8 +701,12 @@ class Translator:
                 and [(k.arg, getattr(k.value, "id", None)) for k in c.keywords] == ([(None, kw)] if kw else [])
             if not ok:
                 self.bad(c, f"`{f}` must be called with exactly the function's own *args / **kwargs")
-            vals = [self.v(x) for x in self.fn.snapshot[f]]
+            vals = [self.v(x) for x in self.fn.snapshot[f]] + [self.v(x) for x in (va, kw) if x in self.fn.varargs]
             return self.let(OUT, f"{OUT} ++ [{vals[0] if len(vals) == 1 else '(' + ', '.join(vals) + ')'}]") + k(env)
+        if f in self.fn.effect_tags:
+            if c.args or c.keywords or self.fn.effects.get(f) != "Int":
+                self.bad(c, f"tagged effect call `{f}` must have no arguments (and the effect type Int)")
+            return self.let(OUT, f"{OUT} ++ [{int(self.fn.effect_tags[f])}]") + k(env)
         if f in self.fn.effects:
             args = list(c.args)
             names = self.fn.effect_params.get(f)
@@ -901,6 +914,12 @@ class Translator:
         for n in names:
             env[n] = fn.params[n]
             binders.append(f"({self.v(n)} : {lean_ty(fn.params[n])})")
+        if set(fn.varargs) - set(self.passthrough):
+            self.bad(node, f"registry varargs {sorted(fn.varargs)} are not the function's *args / **kwargs")
+        for n in self.passthrough:                  # the forwarded *args / **kwargs, in this order
+            if n in fn.varargs:
+                env[n] = fn.varargs[n]
+                binders.append(f"({self.v(n)} : {lean_ty(fn.varargs[n])})")
         self.can_raise = any(isinstance(n, (ast.Raise, ast.While)) for n in ast.walk(node)) or any(
             isinstance(n, ast.Call) and _dotted(n.func) in ("heappop", "heapq.heappop") for n in ast.walk(node))
         if fn.fuel:
@@ -919,7 +938,7 @@ class Translator:
                 ety = next(iter(fn.effects.values()))
                 ety = ety[1] if ety[0] == "T" and len(ety) == 2 else ety        # an effect call with one argument
             else:
-                tys = [fn.state[x] for x in next(iter(fn.snapshot.values()))]
+                tys = [fn.state[x] for x in next(iter(fn.snapshot.values()))] + [fn.varargs[x] for x in self.passthrough if x in fn.varargs]
                 ety = tys[0] if len(tys) == 1 else ("T", *tys)
             if any(isinstance(n, ast.Name) and n.id == OUT for n in ast.walk(node)):
                 self.bad(node, f"a local named {OUT}")
